@@ -230,14 +230,19 @@ func startDial(cf base.ClientFactory, ca any, addr string) *dialing {
 
 // serverResp returns (cached) the reference server's UniformDH response for a padding.
 func (e *env) serverResp(kB []byte, pad []byte, hour int64) []byte {
-	key := fmt.Sprintf("%x/%x/%d", kB, sha256.Sum256(pad), hour)
+	return e.serverRespFor(e.srvPriv, kB, pad, hour)
+}
+
+// serverRespFor: the same for a chosen server private key.
+func (e *env) serverRespFor(srvPriv, kB []byte, pad []byte, hour int64) []byte {
+	key := fmt.Sprintf("%x/%x/%x/%d", sha256.Sum256(srvPriv), kB, sha256.Sum256(pad), hour)
 	e.rmu.Lock()
 	r, ok := e.respC[key]
 	e.rmu.Unlock()
 	if ok {
 		return r
 	}
-	r = vlib.UnHex(e.call("srv.resp %s %s %s %d", vlib.Hex(kB), vlib.Hex(e.srvPriv), vlib.Hex(pad), hour)[1])
+	r = vlib.UnHex(e.call("srv.resp %s %s %s %d", vlib.Hex(kB), vlib.Hex(srvPriv), vlib.Hex(pad), hour)[1])
 	e.rmu.Lock()
 	e.respC[key] = r
 	e.rmu.Unlock()
@@ -335,6 +340,8 @@ func (e *env) runCase(c Case) {
 		e.garbageCase(c)
 	case "flipmix":
 		e.flipMixCase(c)
+	case "dh-edge":
+		e.dhEdgeCase(c)
 	case "data":
 		e.dataCase(c)
 	case "flip":
@@ -372,7 +379,7 @@ func corpusCases() []Case {
 
 func main() {
 	r := vlib.NewRun("C15")
-	r.Rule = "kinds: split (server response ++ first packet cut at one point, real Dial; non-trivial = cut strictly inside the response), hs-parse (parser hook on valid/malformed responses under random chunkings; non-trivial = ≥2 chunks), wrong-secret / tampered-response (non-trivial = all), data (packet streams both directions under chunk/write-size classes; non-trivial = a chunk boundary falls inside a packet or ≥2 packets), flip (every bit of one packet of each legal edge shape incl. header-only; all non-trivial), flipmix (one bit of one packet of a mixed burst), tickets (histories of connect/issue/restart/age; non-trivial = a ticket is presented or expires), password, hello; distinct by canonical case text"
+	r.Rule = "kinds: split (server response ++ first packet cut at one point, real Dial; non-trivial = cut strictly inside the response), dh-edge (full handshake + data both ways with key pairs steered so that the shared secret, the server's or the client's public value starts with zero bytes; all non-trivial), hs-parse (parser hook on valid/malformed responses under random chunkings; non-trivial = ≥2 chunks), wrong-secret / tampered-response (non-trivial = all), data (packet streams both directions under chunk/write-size classes; non-trivial = a chunk boundary falls inside a packet or ≥2 packets), flip (every bit of one packet of each legal edge shape incl. header-only; all non-trivial), flipmix (one bit of one packet of a mixed burst), tickets (histories of connect/issue/restart/age; non-trivial = a ticket is presented or expires), password, hello; distinct by canonical case text"
 	r.Assumptions = []string{
 		"no false mark: the 16-byte mark does not occur in random padding (2^-128 per position); a generated case where it does is reported, not skipped",
 		"the epoch hour does not change between the client's flight and the server's answer (re-read per case; a case straddling the hour is redone)",
@@ -413,7 +420,7 @@ func main() {
 		run  func()
 	}{
 		{"hello", e.helloCases}, {"password", e.passwordCases}, {"split", e.splitCases},
-		{"hs-parse", e.hsParseCases}, {"nocomplete", e.noCompleteCases}, {"data", e.dataCases},
+		{"dh-edge", e.dhEdgeCases}, {"hs-parse", e.hsParseCases}, {"nocomplete", e.noCompleteCases}, {"data", e.dataCases},
 		{"garbage", e.garbageCases}, {"flip", e.flipCases}, {"flipmix", e.flipMixCases}, {"tickets", e.ticketCases},
 	}
 	for _, s := range sections {
